@@ -75,6 +75,8 @@ def gen_cases(ctx):
            "missing_input_value": float(rng.choice([-7.0, kp[0], kp[-1] + 3.0])),
            "split": bool(rng.rand() < .3), "wide": bool(units > 1 and rng.rand() < .5),
            "logit_scale": float(rng.choice([0.5, 3.0, 30.0, 200.0])),
+           # softmax is shift invariant: a large common offset (a restored checkpoint, a long drift) changes nothing
+           "logit_offset": float(rng.choice([0.0, 0.0, 30.0, -30.0, 100.0, -150.0])),
            "kernel_class": str(rng.choice(["gauss", "big", "monotone", "monotone", "bounded", "ints"])),
            "seed": int(rng.randint(2**31 - 1)), "exec": modes.pick(rng, (0.5, 0.2, 0.3))}
 
@@ -258,8 +260,9 @@ def run_case(ctx, case):
   layer.kernel.assign(k)
   logits = None
   if learned:
-    logits = (rng.normal(size=(units, nk - 1)) * case["logit_scale"]).astype(np.float32)
+    logits = (rng.normal(size=(units, nk - 1)) * case["logit_scale"] + case.get("logit_offset", 0.0)).astype(np.float32)
     logits = np.clip(logits, -200, 200)
+    ctx.cls("logit_offset:%g" % case.get("logit_offset", 0.0))
     layer.interpolation_logits.assign(logits)
   mo = None
   if imp != "no":
